@@ -584,10 +584,17 @@ fn child(node: dom::XmlNode) -> Vec<dom::XmlNode> {
     }
 
     for c in node.child_nodes().iter() {
-        nodes.push(c.clone());
+        if is_data_model_node(&c) {
+            nodes.push(c.clone());
+        }
     }
 
     nodes
+}
+
+/// The document type declaration is a child of the DOM document but not a node in XPath.
+fn is_data_model_node(node: &dom::XmlNode) -> bool {
+    !matches!(node, dom::XmlNode::DocumentType(_))
 }
 
 fn descendant(node: dom::XmlNode) -> Vec<dom::XmlNode> {
@@ -639,7 +646,9 @@ fn following_sibling(node: dom::XmlNode) -> Vec<dom::XmlNode> {
 
     let mut next = node.next_sibling();
     while let Some(n) = next {
-        nodes.push(n.clone());
+        if is_data_model_node(&n) {
+            nodes.push(n.clone());
+        }
         next = n.next_sibling();
     }
 
@@ -728,7 +737,9 @@ fn preceding_sibling(node: dom::XmlNode) -> Vec<dom::XmlNode> {
 
     let mut prev = node.previous_sibling();
     while let Some(p) = prev {
-        nodes.push(p.clone());
+        if is_data_model_node(&p) {
+            nodes.push(p.clone());
+        }
         prev = p.previous_sibling();
     }
 
